@@ -14,8 +14,8 @@ RULE = ('lists of 1-6 part transcriptions (classes: true overlapping windows of 
 ASSUMPTIONS = ['the detected overlap is whatever find_best_overlap returned (recorded), the clauses are arithmetic on it',
                'end-to-end leg: the harness run_ocr reads one glyph per 8-px column block, so part transcriptions are exact windows']
 N = {'quick': 3000, 'thorough': 150000}
-CLASSES = ['windows', 'noisy_windows', 'unrelated', 'empties', 'single_chars', 'repetitive', 'end_to_end', 'enumeration', 'astral']
-REQUIRED = ['overlap_detections_checked', 'no_logits_runs', 'merges_checked', 'steps_checked', 'zero_overlap_steps', 'positive_overlap_steps', 'disjoint_or_empty_steps', 'e2e_lines', 'e2e_split_lines']
+CLASSES = ['windows', 'noisy_windows', 'unrelated', 'empties', 'single_chars', 'repetitive', 'end_to_end', 'enumeration', 'astral', 'long_windows']
+REQUIRED = ['long_overlap_detections_checked', 'overlap_detections_checked', 'no_logits_runs', 'merges_checked', 'steps_checked', 'zero_overlap_steps', 'positive_overlap_steps', 'disjoint_or_empty_steps', 'e2e_lines', 'e2e_split_lines']
 ALPHA = 'abcdefg '
 
 
@@ -77,6 +77,12 @@ def gen(rng, i, ctx):
             texts.append((t, gaps))
         return {'cls': cls, 'mlw': mlw, 'lines': texts}
     text = rtext(rng, 5, 40, 'ab' if cls == 'repetitive' else (ALPHA if cls != 'astral' else 'ab ' + ASTRAL))
+    if cls == 'long_windows':
+        if (i // len(CLASSES)) % 80 == 0:
+            # two windows of 270 characters that share 262 of them (a very long line recognised with a short stride); rare, the scan is cubic
+            text = rtext(rng, 278, 278, ALPHA)
+            return {'cls': cls, 'parts': [text[:270], text[8:]], 'extra_rows': [0, 2], 'true_overlap': 262}
+        cls = 'windows'
     if cls == 'enumeration':
         # nearly periodic text with a long period (a list, a table column): long overlaps whose shorter candidates are almost as good
         k0 = int(rng.integers(0, 9000))
@@ -109,7 +115,7 @@ def describe(case):
     return case
 
 
-ASTRAL = '\U0001D504\U0001F600\U00020BB7'
+ASTRAL = '\U0001D504\U0001F600\U00020BB7\u200b'
 
 
 def code(ch):
@@ -169,6 +175,12 @@ def check_steps(parts, result, overlaps_log, mon, info):
             mon.violation('overlap-range', step)
             continue
         # the detected overlap is a length of minimum character error rate (an independent edit distance; any of several equally good lengths is accepted)
+        if info.get('true_overlap') and prev.endswith(part[:info['true_overlap']]):
+            # noise-free windows: an overlap without any error exists, so the detected one must be free of errors too
+            mon.count('long_overlap_detections_checked')
+            if o == 0 or not prev.endswith(part[:o]):
+                mon.violation('detected-overlap-has-minimum-error-rate', dict({k_: v_ for k_, v_ in step.items() if k_ not in ('before', 'part', 'after', 'parts')}, lengths=[len(prev), len(part)],
+                              an_error_free_overlap_exists_of_length=info['true_overlap']))
         if len(prev) <= 80 and len(part) <= 80:
             mon.count('overlap_detections_checked')
             best = ref_best_overlaps(prev, part)
@@ -207,6 +219,8 @@ def check(case, mon, ctx):
     mon.count('merges_checked')
     mon.observe('merged text', [t, int(np.asarray(l).shape[0])])
     info = {'parts': parts}
+    if case.get('true_overlap'):
+        info['true_overlap'] = case['true_overlap']
     ovs = check_steps(parts, t, list(ctx.log), mon, info)
     if ovs is None:
         return
